@@ -1,6 +1,7 @@
 package families
 
 import (
+	"strings"
 	"verif/mc/clustermc"
 	"verif/mc/oracle"
 	"verif/mc/schedrun"
@@ -46,6 +47,39 @@ func progressQueues() []queueSetup {
 		mk("dept-l2/qa-q1-l1/qb-q0", world.QueueOpt{Name: "dept", GPU: g(-1, 2, 1)}, world.QueueOpt{Name: "qa", Parent: "dept", GPU: g(1, 1, 1)}, world.QueueOpt{Name: "qb", Parent: "dept", GPU: g(0, -1, 1)}),
 		mk("flat/qa-q0/qb-q2", world.QueueOpt{Name: "qa", GPU: g(0, -1, 1)}, world.QueueOpt{Name: "qb", GPU: g(2, -1, 1)}),
 	}
+}
+
+// elasticPipelinedScenarios: elastic workloads whose FIRST round is only nominated (the sharing /
+// bin-packing scores prefer capacity that a terminating pod still holds) while further pods of the
+// same workload fit on idle capacity elsewhere: the allocate action has to come back to the workload.
+func elasticPipelinedScenarios(tier string) []clustermc.Scenario {
+	menu := []wlItem{
+		{"pend-elastic2min1-f5-qa", world.WL{Queue: "qa", MinMember: 1, Pods: pods(2, shF5, "", "")}},
+		{"pend-elastic3min1-f5-qa", world.WL{Queue: "qa", MinMember: 1, Pods: pods(3, shF5, "", "")}},
+		{"pend-elastic2min1-g1-qa", world.WL{Queue: "qa", MinMember: 1, Pods: pods(2, shG1, "", "")}},
+		{"run-f5+term-f5-samegroup-qb", world.WL{Queue: "qb", MinMember: 1, Pods: []world.PodSpec{
+			{Shape: shF5, State: world.StRunning, Node: "n1", Groups: []string{"A"}}, {Shape: shF5, State: world.StTerminating, Node: "n1", Groups: []string{"A"}}}}},
+		{"term-f5-qb", world.WL{Queue: "qb", Pods: pods(1, shF5, world.StTerminating, "n1")}},
+		{"term-g1-qb", world.WL{Queue: "qb", Pods: pods(1, shG1, world.StTerminating, "n1")}},
+		{"run-f5-qb", world.WL{Queue: "qb", Pods: pods(1, shF5, world.StRunning, "n1")}},
+	}
+	lay := []nodeLayout{
+		{"2n-1+1gpu", []world.NodeOpt{{Name: "n1", CPU: "4", Mem: "8Gi", GPUs: 1, GPUMemMiB: 40000}, {Name: "n2", CPU: "4", Mem: "8Gi", GPUs: 1, GPUMemMiB: 40000}}},
+		{"2n-2+1gpu", []world.NodeOpt{{Name: "n1", CPU: "4", Mem: "8Gi", GPUs: 2, GPUMemMiB: 40000}, {Name: "n2", CPU: "4", Mem: "8Gi", GPUs: 1, GPUMemMiB: 40000}}},
+	}
+	cfgs := []schedrun.Config{{}, {Placement: "spread", NoConsolidation: true}}
+	kMax := 3
+	if tier == "thorough" {
+		kMax = 4
+	}
+	var out []clustermc.Scenario
+	for _, sc := range wlScenariosRange(menu, lay, progressQueues()[:1], cfgs, 2, kMax) {
+		if strings.Contains(sc.Name, "pend-elastic") {
+			sc.Name = "elastic-pipelined:" + sc.Name
+			out = append(out, sc)
+		}
+	}
+	return out
 }
 
 func displacementScenarios() []clustermc.Scenario {
@@ -170,6 +204,7 @@ func C05() *clustermc.Family {
 			cfgs := []schedrun.Config{{}, {Placement: "spread", NoConsolidation: true}, {Signatures: true}, {Placement: "spread", Signatures: true, MapSeed: 3}}
 			out := wlScenarios(tier, progressMenu(), lay, progressQueues(), cfgs, 3, 4)
 			out = append(out, displacementScenarios()...)
+			out = append(out, elasticPipelinedScenarios(tier)...)
 			return out
 		},
 		Depth: func(tier string) int {
